@@ -94,6 +94,7 @@ type SState struct {
 	RewrittenPos map[string]bool                  `json:"rewritten_pos,omitempty"` // checkpoints written again after the deletion of their task
 	Ambiguous map[string]bool                     `json:"ambiguous,omitempty"` // tasks hit by a store write that was applied but reported as failed
 	InFlight int                                  `json:"in_flight"` // index of the operator request in flight at the crash, -1 none
+	Domain   map[string]int                       `json:"domain,omitempty"` // "task|target|collection|shard" -> index into the pchannel log where the replication domain of that stream starts
 	MsgCalls int                                  `json:"msg_calls"` // running number of drop-message store calls
 	Overlap  map[string]bool                      `json:"overlap,omitempty"` // tasks whose record was being updated by a background transition (failure pause) while an operator request on the same task was in flight
 	SimSecs  float64                              `json:"sim_secs"`
@@ -141,7 +142,6 @@ type RigS struct {
 	stdoutFile  string
 	nClients    int
 	pairTarget  map[int]int // dispatcher client pair -> target index (learned from the op-channel registration)
-	domainStart map[string]int
 	snapBefore  string
 	storeBefore string
 	haveBefore  bool
@@ -320,6 +320,9 @@ func (r *RigS) loadState() {
 	if st.Rewritten == nil {
 		st.Rewritten = map[string]bool{}
 	}
+	if st.Domain == nil {
+		st.Domain = map[string]int{}
+	}
 	if st.Overlap == nil {
 		st.Overlap = map[string]bool{}
 	}
@@ -358,6 +361,7 @@ func (r *RigS) build() {
 	for i, tgt := range sc.Targets {
 		_ = tgt
 		w := &SimSDK{State: st.SDK[i], Clock: step, Inc: r.plan.Incarnation, TgtPrefix: fmt.Sprintf("tgt%c-dml", 'a'+i)}
+		w.Note = s.Side
 		pfx := fmt.Sprintf("t%c:", 'a'+i)
 		w.Gate = func(ctx context.Context, kind, key string) Outcome {
 			if r.direct {
@@ -395,6 +399,25 @@ func (r *RigS) build() {
 		}
 	}
 	cdcwriter.VerifKafkaStub = true
+	server.VerifOrderedPositions = true
+	doneCalls := map[string]int{}
+	reader.VerifPreferDone = func(site string) bool {
+		// a replayable coin: seed, site and how often the site asked (asked only with the context already cancelled)
+		r.mu.Lock()
+		n := doneCalls[site]
+		doneCalls[site] = n + 1
+		r.mu.Unlock()
+		h := NewRng(r.plan.Seed ^ uint64(len(site))*0x9E3779B97F4A7C15 ^ uint64(n)<<32 ^ uint64(r.plan.Incarnation)<<48)
+		for _, c := range site {
+			h = NewRng(h.Next() ^ uint64(c))
+		}
+		prefer := h.Intn(4) != 0 // 3 in 4: stop at once; 1 in 4: leave the choice to the select (consume pending data first)
+		if r.sc.Knobs.DoneMode == 1 {
+			prefer = true
+		}
+		r.s.Side("ctx-done at %s #%d: prefer done=%v", site, n, prefer)
+		return prefer
+	}
 	reader.VerifEtcdClient = func(cfg config.EtcdServerConfig) *clientv3.Client { return r.src.Client(ctx) }
 	reader.VerifDispatcherClient = func(mqConfig config.MQConfig, tt bool) msgdispatcher.Client {
 		r.mu.Lock()
@@ -612,6 +635,13 @@ func (r *RigS) noteStoreWrite(key string) {
 			r.st.Overlap[id] = true
 			r.s.Probe("background_transition_overlaps_request")
 		}
+	}
+	if id != "" && (strings.Contains(key, ":put:") || strings.Contains(key, "exec:INSERT INTO task_info:")) && r.opBusy && r.st.InFlight >= 0 && r.sc.Ops[r.st.InFlight].Task != id && r.sc.Ops[r.st.InFlight].Task != "" {
+		// the record of another task is rewritten (a pause triggered by a failure) while a request is in flight: the two
+		// transitions share the per-target resources and are not serialised
+		r.st.Overlap[id] = true
+		r.st.Overlap[r.sc.Ops[r.st.InFlight].Task] = true
+		r.s.Probe("background_transition_overlaps_request")
 	}
 	switch {
 	case strings.Contains(key, ":txn:") && id != "", strings.Contains(key, "exec:DELETE FROM task_info:"):
@@ -872,6 +902,7 @@ func (r *RigS) run() {
 	// drain: no new faults, no new requests; publish the rest of the history so that liveness is judged on a complete run
 	s.Draining = true
 	idle = 0
+	extraTicks := 0
 	for n := 0; idle < 40 && n < 6000; n++ {
 		s.Settle()
 		if !wasReloaded && isReloaded() {
@@ -886,6 +917,20 @@ func (r *RigS) run() {
 		}
 		if len(as) == 0 {
 			idle++
+			if idle%3 == 0 && extraTicks < 16 && isReloaded() && st.HistPos >= len(sc.History) && !r.opBusy && !r.noDataFlow() {
+				// the source keeps ticking: batches buffered by the packer are flushed by its age threshold only when a next pack arrives
+				extraTicks++
+				var maxTs uint64
+				for i := 0; i < sc.Knobs.ChannelNum; i++ {
+					if lg := r.mq.Logs[srcPCh(i)]; len(lg) > 0 && lg[len(lg)-1].Ts > maxTs {
+						maxTs = lg[len(lg)-1].Ts
+					}
+				}
+				r.applyHistory(&HEvent{K: "tick", Ts: maxTs + (200 << 18)})
+				s.logf("%04d drain extra tick %d", s.Step, extraTicks)
+				s.Advance(time.Duration(sc.Knobs.PackTimerMs+100) * time.Millisecond)
+				continue
+			}
 			s.Advance(500 * time.Millisecond)
 			continue
 		}
